@@ -373,6 +373,22 @@ def tlc_traces_nd(run, module, files, cfg=None, max_rejects=8):
     return nt, ne, rejected
 
 
+def tlc_simulate(run, module, cfg, num, depth, outdir, timeout=1200):
+    """TLC -simulate: writes one file per behaviour into outdir; returns the list of files."""
+    os.makedirs(outdir, exist_ok=True)
+    md = os.path.join(run.work, "md-sim-%s" % cfg)
+    args = ["-metadir", md, "-workers", "1", "-nowarning", "-simulate", "file=%s/b,num=%d" % (outdir, num),
+            "-depth", str(depth), "-seed", str(run.seed), "-config", cfg + ".cfg", module + ".tla"]
+    rc, out = java(args, SPEC, timeout=timeout)
+    shutil.rmtree(md, ignore_errors=True)
+    files = sorted(glob.glob(os.path.join(outdir, "b_*")))
+    if not files:
+        raise Infra("TLC -simulate produced no behaviours:\n" + clean(out)[-2000:])
+    if "Invariant" in out and "violated" in out:
+        raise Infra("the model violates an invariant in simulation:\n" + clean(out)[-3000:])
+    return files
+
+
 def seed_tier(argv):
     seed = int(os.environ.get("VERIF_SEED", "1") or "1")
     return seed
